@@ -124,6 +124,8 @@ pub const RULES: &[(&str, &[&str])] = &[
     ("idle.leaked", &["C13", "C06"]),
     ("wait.count", &["C12", "C14"]),
     ("run.iterations", &["C11"]),
+    ("blockon.result", &["C11"]),
+    ("blockon.lost_wake", &["C11"]),
     ("wait.requested_timeout", &["C12"]),
     ("wait.clock_moved", &["C12"]),
     ("wait.limit_timer_not_fired", &["C12", "C05"]),
